@@ -27,4 +27,4 @@ def run(tier: str, seed: int):
         serial = list(F.fam_shapes(1, 4, batch=1, bust=(False, True))) + list(F.fam_faults(2, 4, cofs=(True,), kinds=('raise',)))
         rule = 'n<=5 shapes (batch<=2), n<=4 (batch<=3) with pre-cache; fault sets <=2 on n<=4, <=1 on n=5'
         e3c = list(F.fam_e3(list(F.fam_shapes(1, 3)) + list(F.fam_faults(2, 3, max_faults=2, cofs=(True,))), workers=(1, 2, None))) + list(F.fam_e3(F.fam_faults(4, 4, cofs=(True,), reqs='sinks'), workers=(2,), liveness=False))
-    return run_e2_property('C02', tier, seed, cfgs, serial_configs=serial, e3_configs=e3c, rule=rule, assumptions=ASSUME)
+    return run_e2_property('C02', tier, seed, cfgs, serial_configs=serial, e3_configs=e3c, real_cases=list(F.fam_real(F.real_bases('plain') + F.real_bases('faults'), workers=(2,))), rule=rule, assumptions=ASSUME)
